@@ -3,12 +3,30 @@
 //! the extracted Coq model reads); one result per output line in the same format.
 mod c11;
 mod c16;
+mod client;
+mod repo;
 mod util;
 
 use serde_json::{json, Value};
 use std::io::{BufRead, Write};
 
+thread_local! {
+    static RT: tokio::runtime::Runtime = tokio::runtime::Builder::new_current_thread().enable_all().build().unwrap();
+    static POOL: repo::KeyPool = repo::KeyPool::load(&std::env::var("VERIF_KEYS").unwrap_or_else(|_| "/verif/.cache/keys".to_string()));
+}
+
+fn run_object(v: &Value) -> Value {
+    let p = v["p"].as_u64().unwrap_or(0);
+    RT.with(|rt| POOL.with(|pool| match p {
+        6 => client::run(rt, pool, v),
+        _ => json!([999]),
+    }))
+}
+
 fn run_case(v: &Value) -> Value {
+    if v.is_object() {
+        return run_object(v);
+    }
     let a = match v.as_array() {
         Some(a) if a.len() >= 2 => a,
         _ => return json!([999]),
